@@ -2,7 +2,8 @@
 (* C01 as a monitor: a deterministic fold over the events of one `async with Context()` block.
      reg(cb, pass)                      a teardown callback is registered (any route); pass = registered with pass_exception
      exit.begin(how, exc)               the block ends: how in {"return","exc","base","cancel"}, exc = id of the exception ("none"/"cancel")
-     cb.begin(cb, hasarg, arg)          callback cb is invoked (with the argument it received, if any)
+     cb.begin(cb, hasarg, arg)          callback cb is invoked (with the argument it received, if any); cb = 0: the callback that came with
+                                        a registration that was rejected (add_resource raising ResourceConflict)
      cb.end(cb, raised, exc, cancel)    callback cb (including any awaitable it returned) has finished; callback ids are positive integers; cancel = it re-raised the
                                         backend's cancellation exception
      exit.end(kind, groups, exc, plainexc)   what left the block: kind in {"normal","exc","cancel","cancelgroup","group"};
@@ -22,7 +23,8 @@ MonNext(m, e) ==
          ELSE [Hit(m, IF m.closing THEN "reg-during-teardown" ELSE "reg") EXCEPT !.stack = Append(@, e.cb), !.pass = Append(@, e.pass)]
     [] e.ev = "exit.begin" -> [m EXCEPT !.closing = TRUE, !.blockexc = e.exc]
     [] e.ev = "cb.begin" ->
-         IF ~m.closing THEN Fail(m, "callback-ran-before-the-block-ended")
+         IF e.cb = 0 THEN Fail(m, "callback-of-a-rejected-registration-ran")
+         ELSE IF ~m.closing THEN Fail(m, "callback-ran-before-the-block-ended")
          ELSE IF m.running # 0 THEN Fail(m, "callback-started-while-another-was-still-running")
          ELSE IF e.cb \in m.ran THEN Fail(m, "callback-ran-twice")
          ELSE IF m.stack = <<>> \/ Top(m) # e.cb THEN Fail(m, "not-in-reverse-order-of-registration")
